@@ -19,6 +19,6 @@ PROP["lean_modules"] += ["ConduitModel.Props.C01Stream", "ConduitModel.Facts.Str
 
 META = {
     "text": 'Lean 4 theorems for every batch and every plugin reply: all Batch mutators preserve the alignment/filter-count invariant (C08_aligned_*), flag/nack/SetRecords marks hit exactly the physical index of the addressed active record and nothing else (C08_mark_hits_right_record*, C08_setRecords_hits_right_record, C08_dest_marks_right_record), the split-run ledger releases a run exactly once when all live pieces voted, nack iff some piece failed (C08_run_released_once*, C08_split_all_before_ack, C08_split_nack_only_after_failure); agreement lemmas tie the pure restatements to the monadic model. Whole-pass accounting is decided by equality with the model and the monitors.',
-    "note": 'Batch bookkeeping and run ledger proved for all inputs; Monitor soundness is PROVED for the model for linear and one-level fan-out trees without record splitting (Props/MonSound: monitor_sound_linear_nosplit, monitor_sound_nosplit_fan1 and their per-clause forms — every clause of the Lean trace monitor is silent on every run of the model, over multi-batch runs, under the decidable hypotheses RootPreserving / NS / sorted roots); for split records and nested fan-out the whole-pass claim rests on event-log equality with the model and on the monitor evaluated on every implementation trace (partial).',
+    "note": 'Batch bookkeeping and run ledger proved for all inputs; Monitor soundness is PROVED for the model for linear and one-level fan-out trees — the only shapes lifecycle-poc builds (source → processors → fan-out → per-branch processors → destination) — RECORD SPLITTING INCLUDED (Props/MonSound: monitor_sound_linear, monitor_sound_fan1, the no-split forms monitor_sound_linear_nosplit / monitor_sound_nosplit_fan1 and the per-clause forms C01_v2_monitor_sound_*: every clause of the Lean trace monitor is silent on every run of the model, over multi-batch runs, any fuel/window/outcomes, under the decidable run hypotheses RootPreserving / FreshTags / sorted roots); for NESTED fan-out (a shape the engine API allows but the service never builds) the whole-pass claim rests on event-log equality with the model and on the monitor evaluated on every implementation trace (partial).',
     "technique": 'Lean 4 data-structure invariants and exact-effect theorems + model/implementation trace equality + Lean-defined trace monitor',
 }
